@@ -5,20 +5,23 @@
 // lists and never calls FilterNonParticipants, so the error branches and half of the helpers never ran.
 //
 // Semantics taken from the doc comments of eth2/beacon/phase0/attestation_bits.go:
-//   Or                 "Sets the bits to true that are true in other. (in place)"; operands of equal bit length
-//                      (the only use the library makes of it; with different lengths the delimiter bit of one
-//                      operand lands inside the other, which no caller may rely on — not generated)
-//   FilterParticipants / FilterNonParticipants  in-place filter, "panics if committee size does not match":
-//                      a mismatch is only offered to SingleParticipant and Covers, which return errors
-//   Covers             "true if other only has bits set to 1 that this bitfield also has set to 1", error on a length mismatch
-//   SingleParticipant  the one participant, an error for none / several / a committee of another size
-//   Copy               an independent copy
+//
+//	Or                 "Sets the bits to true that are true in other. (in place)"; operands of equal bit length
+//	                   (the only use the library makes of it; with different lengths the delimiter bit of one
+//	                   operand lands inside the other, which no caller may rely on — not generated)
+//	FilterParticipants / FilterNonParticipants  in-place filter, "panics if committee size does not match":
+//	                   a mismatch is only offered to SingleParticipant and Covers, which return errors
+//	Covers             "true if other only has bits set to 1 that this bitfield also has set to 1", error on a length mismatch
+//	SingleParticipant  the one participant, an error for none / several / a committee of another size
+//	Copy               an independent copy
+//
 // Sensitivity (tools/trymut.py, quick tier):
-//   B1 SingleParticipant returns the LAST participant when two are set       bits/SingleParticipant/wrong
-//   B2 Covers without the length comparison                                  bits/Covers/missing-error
-//   B3 FilterNonParticipants keeps participants                              bits/FilterNonParticipants/wrong
-//   B4 Or loops to len(cb)-1                                                 bits/Or/wrong
-//   B5 electra OnesCount counts the delimiter                                bits/OnesCount/wrong
+//
+//	B1 SingleParticipant returns the LAST participant when two are set       bits/SingleParticipant/wrong
+//	B2 Covers without the length comparison                                  bits/Covers/missing-error
+//	B3 FilterNonParticipants keeps participants                              bits/FilterNonParticipants/wrong
+//	B4 Or loops to len(cb)-1                                                 bits/Or/wrong
+//	B5 electra OnesCount counts the delimiter                                bits/OnesCount/wrong
 package c20
 
 import (
